@@ -33,7 +33,7 @@ pub fn info() -> PropInfo {
         id: "C09",
         run,
         replay,
-        rule: "cases = histories of builder calls: BytesStart::new + push_attribute/extend_attributes/with_attributes/set_name/clear_attributes written as Start or Empty, BytesEnd::new, BytesText::new, BytesCData::escaped (all pieces), BytesDecl::new, BytesPI::new, comments, DOCTYPE, Writer::create_element(..).with_attribute(s)..write_{text,cdata,pi}_content/write_empty/write_inner_content; payload strings from a markup-heavy generator. Reading the written bytes must give the constructed sequence after coalescing adjacent text events/CDATA pieces and dropping empty text; keys byte-equal, attribute values and text unescape to the original strings, CDATA concatenates to the original, declaration fields read back; the async writer (through a sink that accepts partial writes and returns Pending) produces the same bytes. Non-trivial = at least one payload contains a special character and the history contains an in-place edit or an element-builder call. The synchronous writer is also run through a sink that accepts partial (plain and vectored) writes and answers some calls with ErrorKind::Interrupted: same bytes as into a Vec. Payloads, names and builder-call lists occasionally long (16..300 characters, 20..45 calls). In 40% of the cases the three writers are ALSO run with indentation (space / tab x sizes 0,1,2,4,9,33,65,130) and with ElementWriter::new_line() in front of / between / after the attribute groups and explicit write_indent() / write_indent_async() calls between items: no panic, and sync, partial-sink sync and async writers agree byte for byte (what indentation may insert is C19's subject). A quarter of the cases also write Writer::write_bom() first: same bytes after the mark, same events read back. Nested content goes through write_inner_content on the sync side and write_inner_content_async on the async side.",
+        rule: "cases = histories of builder calls: BytesStart::new + push_attribute/extend_attributes/with_attributes/set_name/clear_attributes written as Start or Empty, BytesEnd::new, BytesText::new, BytesCData::escaped (all pieces), BytesDecl::new, BytesPI::new, comments, DOCTYPE, Writer::create_element(..).with_attribute(s)..write_{text,cdata,pi}_content/write_empty/write_inner_content; payload strings from a markup-heavy generator. Reading the written bytes must give the constructed sequence after coalescing adjacent text events/CDATA pieces and dropping empty text; keys byte-equal, attribute values and text unescape to the original strings, CDATA concatenates to the original, declaration fields read back; the async writer (through a sink that accepts partial writes and returns Pending) produces the same bytes. Non-trivial = at least one payload contains a special character and the history contains an in-place edit or an element-builder call. The synchronous writer is also run through a sink that accepts partial (plain and vectored) writes and answers some calls with ErrorKind::Interrupted: same bytes as into a Vec. Payloads, names and builder-call lists occasionally long (16..300 characters, 20..45 calls). In 40% of the cases the three writers are ALSO run with indentation (space / tab x sizes 0,1,2,4,9,33,65,130) and with ElementWriter::new_line() in front of / between / after the attribute groups and explicit write_indent() / write_indent_async() calls between items: no panic, and sync, partial-sink sync and async writers agree byte for byte (what indentation may insert is C19's subject). A quarter of the cases also write Writer::write_bom() first: same bytes after the mark, same events read back. Nested content goes through write_inner_content on the sync side and write_inner_content_async on the async side. On read-back the other accessors of the same payload (decode_and_unescape_value_with, unescape_with with resolve_xml_entity; without `encoding` also unescape_value / unescape_value_with) must agree.",
         assumptions: &["names are XML-name-like (no blanks, no '>'), comment/PI/DOCTYPE content is free of its own terminator (documented preconditions)", "declarations name UTF-8 (or no encoding): the written bytes are UTF-8"],
         level: "exploration",
         variants: &["full", "min"],
@@ -177,6 +177,19 @@ fn read_back(bytes: &[u8]) -> Result<Vec<Norm>, String> {
             for a in s.attributes().with_checks(false) {
                 let a = a.map_err(|e| format!("attribute error {:?} in {:?}", e, s))?;
                 let val = a.decode_and_unescape_value(dec).map_err(|e| format!("cannot unescape attribute value {:?}: {:?}", B::show(&a.value), e))?;
+                // the other accessors of the same value (a build without `encoding` has the plain ones too)
+                let with = a.decode_and_unescape_value_with(dec, quick_xml::escape::resolve_xml_entity).map(|c| c.into_owned()).map_err(|e| format!("{:?}", e));
+                if with.as_deref() != Ok(val.as_ref()) {
+                    return Err(format!("decode_and_unescape_value_with(resolve_xml_entity) gives {:?}, decode_and_unescape_value {:?} for {:?}", with, val, B::show(&a.value)));
+                }
+                #[cfg(not(feature = "full"))]
+                {
+                    let plain = a.unescape_value().map(|c| c.into_owned()).map_err(|e| format!("{:?}", e));
+                    let plain_with = a.unescape_value_with(quick_xml::escape::resolve_predefined_entity).map(|c| c.into_owned()).map_err(|e| format!("{:?}", e));
+                    if plain.as_deref() != Ok(val.as_ref()) || plain_with.as_deref() != Ok(val.as_ref()) {
+                        return Err(format!("unescape_value gives {:?}, unescape_value_with {:?}, decode_and_unescape_value {:?} for {:?}", plain, plain_with, val, B::show(&a.value)));
+                    }
+                }
                 v.push((String::from_utf8(a.key.as_ref().to_vec()).map_err(|_| "non-UTF-8 key".to_string())?, val.into_owned()));
             }
             Ok(v)
@@ -187,7 +200,14 @@ fn read_back(bytes: &[u8]) -> Result<Vec<Norm>, String> {
             Ok(Event::Start(s)) => out.push(Norm::Start(utf8(s.name().as_ref())?, attrs_of(&s, dec)?)),
             Ok(Event::Empty(s)) => out.push(Norm::Empty(utf8(s.name().as_ref())?, attrs_of(&s, dec)?)),
             Ok(Event::End(e)) => out.push(Norm::End(utf8(e.name().as_ref())?)),
-            Ok(Event::Text(t)) => out.push(Norm::Text(t.unescape().map_err(|e| format!("cannot unescape text {:?}: {:?}", B::show(&t), e))?.into_owned())),
+            Ok(Event::Text(t)) => {
+                let u = t.unescape().map_err(|e| format!("cannot unescape text {:?}: {:?}", B::show(&t), e))?.into_owned();
+                let w = t.unescape_with(quick_xml::escape::resolve_xml_entity).map(|c| c.into_owned()).map_err(|e| format!("{:?}", e));
+                if w.as_deref() != Ok(u.as_str()) {
+                    return Err(format!("unescape_with(resolve_xml_entity) gives {:?}, unescape {:?} for {:?}", w, u, B::show(&t)));
+                }
+                out.push(Norm::Text(u))
+            }
             Ok(Event::CData(c)) => out.push(Norm::CData(utf8(&c)?)),
             Ok(Event::Comment(c)) => out.push(Norm::Comment(utf8(&c)?)),
             Ok(Event::PI(p)) => out.push(Norm::PI(utf8(&p)?, utf8(p.target())?)),
